@@ -8,7 +8,9 @@ CFG = {
                           "RpmVerif.C12.regress_symlink_same", "RpmVerif.C12.regress_special_type"],
     "trivial_branches": ["parse-err"],
     "rule": "every case = one package extracted by the real Package::extract inside a chroot jail with decoys outside /target "
-            "(snapshot of the whole jail before/after). Cases: the corpus witnesses, ~75 hand-encoded hostile packages covering every family of the "
+            "(snapshot of the whole jail before/after). Hand-encoded packages come in two archive forms, since files() looks the header file up per "
+            "entry (fix 3cfa908): stripped entries (07070X + file index: entry i belongs to header file i whatever the paths, duplicates included) and "
+            "newc entries named after the header path; every family is run in both. Cases: the corpus witnesses, ~75 hand-encoded hostile packages covering every family of the "
             "quantifier text ('..' in directory and base names, absolute/empty/relative names, duplicate paths in all type combinations, a link followed "
             "by a file/dir/link at or below it, link loops/chains/dangling links, FIFO/char/block/socket modes, bad dir indexes, missing tags, truncated "
             "payloads, unknown compressor), destination variants (exists, no parent, nested, is a link), builder-made packages (all 12 permission bits on "
